@@ -318,8 +318,17 @@ def mon_c11_sent(case, ots):
             o2 = v.ops[j]
             if o2 in ('cr', 'cw') or o2.startswith('sb:'):
                 continue
-            if o2.startswith('wpo:') or _is_close(o2):
-                break                      # superseded by a user pong / closing begins
+            if _is_close(o2):
+                break                      # closing begins
+            if o2.startswith('wpo:'):
+                # a user pong replaces the automatic one only while it is still parked; once a call in between offered
+                # bytes to the transport (write buffer size 0: _write moved the pong into the write buffer first) it
+                # is queued for good and the user pong merely follows it
+                # (only read/flush calls prove it: a data write offers its own frame first and may fail before the pong moves)
+                moved = case.wbs == 0 and any(v.ops[t] in ('r', 'f') and any(e.startswith('W:') for e in ots[t].events) for t in range(i + 1, j))
+                if not moved:
+                    break
+                continue                   # write(Pong) never flushes ("user pongs can be user flushed"): the next call is responsible
             evs = ots[j].events
             failed = any((e.startswith('W:') and (':e:' in e or e.split(':')[2] == '-')) or e.startswith('F:e:') for e in evs)
             if failed:
